@@ -1119,6 +1119,53 @@ func TestVerifC03(t *testing.T) {
 		}
 		// slots of epochs that are not in the archive at all
 		absentSlots = append(absentSlots, absSlot{900*432000 + 5, false})
+		// partially cached blocks: a fresh cache holds every third object of the archive (under its CID), then each block is
+		// requested (the handlers prefetch the block's CAR span and cache its nodes), then EVERY object is fetched by CID:
+		// whatever the cache holds under a CID must be that object's bytes
+		{
+			o := rpcObs{Kind: "rpc", Case: ci + 1, Arch: a.Arch, Loaded: []uint64{}, Conc: 1}
+			for i, l := range w.eps {
+				ep := *l.epoch
+				ep.allCache = vCache(t)
+				m := NewMultiEpoch(&Options{EpochSearchConcurrency: 1})
+				m.AddEpoch(ep.Epoch(), &ep)
+				o.Loaded = append(o.Loaded, ep.Epoch())
+				secs := l.built.Sections
+				for k := 0; k < len(secs); k += 3 {
+					// (what an earlier, partly evicted prefetch leaves behind: the object's own bytes under its CID)
+					ep.GetCache().PutRawCarObject(secs[k].Cid, secs[k].Data)
+				}
+				for bi, bt := range l.built.Blocks {
+					if bi%2 == 0 {
+						vt.Guard(func() {
+							m.GetBlock(context.Background(), &old_faithful_grpc.BlockRequest{Slot: bt.Spec.Slot})
+						})
+					} else {
+						vCall(newMultiEpochHandler(m, nil), fmt.Sprintf(`{"jsonrpc":"2.0","id":1,"method":"getBlock","params":[%d,{"encoding":"base64","maxSupportedTransactionVersion":0}]}`, bt.Spec.Slot))
+					}
+				}
+				for k, sec := range secs {
+					call := rpcCall{Op: "getNode", Proto: "epoch", Slot: int64(ep.Epoch()), Sig: k, Sigs: []int{}}
+					var got []byte
+					var err error
+					if p := vt.Guard(func() { got, err = ep.GetNodeByCid(context.Background(), sec.Cid) }); p != "" {
+						call.Status, call.Detail = "panic", p
+					} else if err != nil {
+						call.Status, call.Detail = "notfound", "after a getBlock on a partially cached block: "+err.Error()
+					} else {
+						call.Status, call.Txsame = "ok", bytes.Equal(got, sec.Data)
+						if !call.Txsame {
+							call.Detail = "after a getBlock on a partially cached block the cache holds other bytes under this CID"
+						}
+					}
+					if call.Status != "ok" || !call.Txsame || k%7 == 0 {
+						o.Calls = append(o.Calls, call)
+					}
+				}
+				_ = i
+			}
+			out.Emit(o)
+		}
 		subs := rpcSubsets(len(a.Arch))
 		sort.Slice(subs, func(i, j int) bool { return len(subs[i]) < len(subs[j]) })
 		for si, sub := range subs {
